@@ -135,7 +135,7 @@ class Lithium:
             def error(self, message: str) -> None:  # type: ignore[override]
                 pass
 
-        early_parser = _ArgParseTry(add_help=False)
+        early_parser = _ArgParseTry(add_help=False, conflict_handler="resolve")
         early_atoms = early_parser.add_mutually_exclusive_group()
         parser = argparse.ArgumentParser(
             description="Lithium, an automated testcase reduction tool",
@@ -196,6 +196,16 @@ class Lithium:
         early_parser.add_argument(
             "--strategy", default=DEFAULT_STRATEGY, choices=strategies.keys()
         )
+        # The early parser must know every option, otherwise the value of an option it
+        # does not know (eg. `--testcase FILE`, `--min N`) is taken for the condition
+        # script and a `--strategy` or testcase type given after it is ignored.
+        early_parser.add_argument("--testcase")
+        early_parser.add_argument("--tempdir")
+        early_parser.add_argument("-v", "--verbose", action="store_true")
+        for strategy_cls in strategies.values():
+            strategy_cls().add_args(early_parser)
+        for testcase_cls in testcase_types.values():
+            testcase_cls.add_arguments(early_parser)
         early_args = early_parser.parse_known_args(argv)
         atom = early_args[0].atom if early_args else DEFAULT_TESTCASE
         self.strategy = strategies.get(
